@@ -223,12 +223,13 @@ theorem snippet_no_underflow (files : List SrcFile) (sp : Span) (f : SrcFile)
   simp only [hf, hsn]
   exact ⟨_, rfl⟩
 
-/-- The precondition is not implied by what the lexers hand out: they count the `\r` of a `\r\n` as a
-    column, `lines()` strips it. The span 2:9–3:17 (start = end of the doc-comment token; the parser
-    gave E009 exactly this span in this CRLF file until the D-09a repair) makes
-    `highlight_end - highlight_start` underflow, while the same program with LF ends is drawn (finding D-14a). -/
-theorem snippet_underflow_crlf_witness :
-    getSnippet "module M\r\n/// doc\r\nunchecked enum E : string { A }\r\n".toList ⟨2, 9⟩ ⟨3, 17⟩ = .panic "sub:highlight" ∧
+/-- What the lexers hand out need not satisfy that precondition: they count the `\r` of a `\r\n` as a column,
+    `lines()` strips it, so the span 2:9–3:17 of this CRLF file starts behind its first line. Since the repair of
+    D-14a (`saturating_sub`) such a span is drawn too — with nothing highlighted on that line — instead of
+    underflowing; the same program with LF ends is drawn as before. -/
+theorem snippet_crlf_witness_drawn :
+    (match getSnippet "module M\r\n/// doc\r\nunchecked enum E : string { A }\r\n".toList ⟨2, 9⟩ ⟨3, 17⟩ with
+      | .ok _ => true | _ => false) = true ∧
     ∃ out, getSnippet "module M\n/// doc\nunchecked enum E : string { A }\n".toList ⟨2, 8⟩ ⟨3, 17⟩ = .ok out := by
   constructor
   · decide
@@ -285,5 +286,5 @@ end Slicec.C14
 #print axioms Slicec.C14.human_output_chars_from_inputs
 #print axioms Slicec.C14.no_escape_when_disabled
 #print axioms Slicec.C14.snippet_no_underflow
-#print axioms Slicec.C14.snippet_underflow_crlf_witness
+#print axioms Slicec.C14.snippet_crlf_witness_drawn
 #print axioms Slicec.C14.highlight_geometry
